@@ -101,7 +101,7 @@ func (d *tDecoder) Decode(b []byte, base unsafe.Pointer, sd *structDesc, maxdept
 
 		f := sd.GetField(fid)
 		if f == nil || f.Type.WT != tp {
-			n, err := thrift.Binary.Skip(b[i:], thrift.TType(tp))
+			n, err := skipUnknown(b[i:], tp)
 			if err != nil {
 				return i, fmt.Errorf("skip unknown field %d of struct %s err: %w", fid, sd.rt.String(), err)
 			}
@@ -146,6 +146,26 @@ func (d *tDecoder) Decode(b []byte, base unsafe.Pointer, sd *structDesc, maxdept
 		*(*[]byte)(unsafe.Add(base, sd.unknownFieldsOffset)) = ufs.Copy(b)
 	}
 	return i, nil
+}
+
+// skipUnknown returns the encoded length of a value of wire type tp.
+//
+// thrift.Binary.Skip indexes its size table with TType, which is an int8: a type
+// code >= 0x80, of the field or of any container element inside it, makes it panic.
+// It may also report a length beyond the end of the buffer when the last fixed-size
+// value of a map is cut short. Both are reported as errors here.
+func skipUnknown(b []byte, tp ttype) (n int, err error) {
+	defer func() {
+		if r := recover(); r != nil {
+			n, err = 0, thrift.NewProtocolException(thrift.INVALID_DATA,
+				fmt.Sprintf("skip %s: invalid data type: %v", ttype2str(tp), r))
+		}
+	}()
+	n, err = thrift.Binary.Skip(b, thrift.TType(tp))
+	if err == nil && n > len(b) {
+		return 0, io.ErrShortBuffer
+	}
+	return n, err
 }
 
 func decodeFixedSizeTypes(t ttype, b []byte, p unsafe.Pointer) int {
